@@ -43,7 +43,7 @@ func init() {
 			}
 			return ps
 		},
-		MinObserved: []string{"frames_checked", "cross_writer_switches", "barrier_openings", "bursts_fully_answered_without_further_traffic", "stops_during_concurrent_writes", "write_timeout_runs", "victim_connections_reset_mid_response", "connections_used_after_a_panic_inside_write", "single_frames_around_the_write_buffer_size", "runs_in_which_the_server_closes_before_the_client_has_read_everything", "runs_with_a_starttls_request_answered_among_the_writers", "panics_next_to_a_writer_blocked_in_write", "runs_in_which_the_client_stopped_reading_for_seconds", "bursts_runs_in_which_another_servers_connection_of_the_same_number_ended"},
+		MinObserved: []string{"frames_checked", "cross_writer_switches", "barrier_openings", "bursts_fully_answered_without_further_traffic", "bursts_sent_together_with_the_first_octets_of_the_next_request", "stops_during_concurrent_writes", "write_timeout_runs", "victim_connections_reset_mid_response", "connections_used_after_a_panic_inside_write", "single_frames_around_the_write_buffer_size", "runs_in_which_the_server_closes_before_the_client_has_read_everything", "runs_with_a_starttls_request_answered_among_the_writers", "panics_next_to_a_writer_blocked_in_write", "runs_in_which_the_client_stopped_reading_for_seconds", "bursts_runs_in_which_another_servers_connection_of_the_same_number_ended"},
 	})
 }
 
@@ -469,6 +469,8 @@ func c05Bursts(c *Ctx, r *Rand, bursts int) {
 		}
 	}
 	id := int64(1)
+	var carry []byte
+	var carryID int64
 	// size sweep first: single frames whose encoded length runs through the neighbourhood of the 4096-byte write buffer
 	// (and of twice that), each followed by silence until it has arrived
 	var sweep []int
@@ -495,14 +497,32 @@ func c05Bursts(c *Ctx, r *Rand, bursts int) {
 		}
 		var all []byte
 		want := map[int64]int{}
+		expect := 0
+		if carry != nil {
+			// the rest of the request whose first octets travelled with the previous burst
+			all, carry = append(all, carry...), nil
+			want[carryID] = 2
+			expect += 2
+		}
 		for i := 0; i < n; i++ {
 			id++
 			want[id] = per
+			expect += per
 			all = append(all, sber.Message(id, sber.Search{Base: []byte(base), Scope: 2, Filter: sber.PresentFilter("objectClass"), Attrs: [][]byte{}}.Node(), nil).Encode()...)
+		}
+		if b%4 == 1 {
+			// the segment that carries this burst ends with the first octets of the NEXT request (a request cut by a
+			// segment boundary); the client completes it only after every frame of this burst has arrived
+			id++
+			nx := sber.Message(id, sber.Search{Base: []byte("dc=x"), Scope: 2, Filter: sber.PresentFilter("objectClass"), Attrs: [][]byte{}}.Node(), nil).Encode()
+			k := 1 + r.Intn(len(nx)-1)
+			all = append(all, nx[:k]...)
+			carry, carryID = nx[k:], id
+			c.Count("bursts_sent_together_with_the_first_octets_of_the_next_request", 1)
 		}
 		cl.Send(all)
 		got := 0
-		for got < per*n {
+		for got < expect {
 			m, err := cl.ReadMsg(5 * time.Second)
 			if err != nil {
 				if !isTimeout(err) {
@@ -510,8 +530,9 @@ func c05Bursts(c *Ctx, r *Rand, bursts int) {
 					return
 				}
 				// B expired with the connection silent: is the frame stranded until later traffic?
-				missing := per*n - got
+				missing := expect - got
 				id++
+				cl.Send(carry) // (completes a request begun with the burst, if there is one)
 				cl.Send(sber.Message(id, sber.Search{Base: []byte("dc=x"), Scope: 2, Filter: sber.PresentFilter("objectClass"), Attrs: [][]byte{}}.Node(), nil).Encode())
 				late := 0
 				for {
@@ -524,7 +545,7 @@ func c05Bursts(c *Ctx, r *Rand, bursts int) {
 						late++
 					}
 				}
-				c.Violate("frame withheld or lost although its Write returned nil", fmt.Sprintf("burst %d of %d writers: %d of %d frames had not arrived 5s after the burst (request base %q) while the connection was silent (%d successful writes so far); %d of them arrived only after a later request caused more writes", b, n, missing, per*n, base, okWrites.Load(), late),
+				c.Violate("frame withheld or lost although its Write returned nil", fmt.Sprintf("burst %d of %d writers: %d of %d frames had not arrived 5s after the burst (request base %q) while the connection was silent (%d successful writes so far); %d of them arrived only after a later request caused more writes", b, n, missing, expect, base, okWrites.Load(), late),
 					map[string]any{"burst": b, "writers": n, "missing": missing, "arrived_after_later_traffic": late})
 				return
 			}
